@@ -172,7 +172,7 @@ def r_subst(text, rules, where):
 # general desugarings with captured sub-expressions
 # --------------------------------------------------------------------------------------------------
 
-def _split_top_commas(s):
+def _split_top_commas(s, angles=False):
     m = code_mask(s)
     out = []
     d = 0
@@ -184,8 +184,10 @@ def _split_top_commas(s):
             d += 1
         elif ch in ")]}":
             d -= 1
-        elif ch == "<" and False:
-            pass
+        elif angles and ch == "<":
+            d += 1
+        elif angles and ch == ">" and s[i - 1] != "-":
+            d -= 1
         elif ch == "," and d == 0:
             out.append(s[last:i])
             last = i + 1
@@ -442,7 +444,7 @@ def insert_hints(body, hints, where):
         else:
             raise Unsupported("hint without anchor")
         hits = [x for x in rx.finditer(body) if m[x.start() + (len(x.group(0)) - len(x.group(0).lstrip()))]]
-        if len(hits) <= nth:
+        if (nth >= 0 and len(hits) <= nth) or (nth < 0 and len(hits) < -nth):
             raise AnchorLost("%s: hint anchor lost: %s" % (where, {k: v for k, v in h.items() if k != 'proof'}))
         x = hits[nth]
         pr = " proof { %s } " % h["proof"].strip() if not h.get("raw") else " %s " % h["proof"].strip()
@@ -661,6 +663,8 @@ def emit_fn(f, udir, unit_props, recs, log_global):
         attrs = ""
         if f.get("rlimit"):
             attrs += "#[verifier::rlimit(%s)]\n" % f["rlimit"]
+        if f.get("attrs"):
+            attrs += f["attrs"].strip() + "\n"
         if f.get("spinoff"):
             attrs += "#[verifier::spinoff_prover]\n"
         text = attrs + splice_sig(sig, f.get("ret", "r"), f.get("requires", []), f.get("ensures", []), f.get("sig_extra")) + body + "\n"
@@ -688,7 +692,7 @@ def emit_type(t, log):
             # tuple struct: make fields pub
             head, rest = text.split("(", 1)
             inner = rest.rsplit(")", 1)[0]
-            fields = [x.strip() for x in _split_top_commas(inner) if x.strip()]
+            fields = [x.strip() for x in _split_top_commas(inner, angles=True) if x.strip()]
             fields = [x if x.startswith("pub") else "pub " + x for x in fields]
             text = head + "(" + ", ".join(fields) + ");"
     if not text.lstrip().startswith("pub"):
@@ -701,7 +705,7 @@ def emit_type(t, log):
     return (pre + "\n" if pre else "") + text + "\n"
 
 
-def assemble(unit_name, canary=False):
+def assemble(unit_name, canary=False, demote=()):
     """returns (text, recs, meta).  recs carry emit byte spans into text."""
     u = load_unit(unit_name)
     udir = u["_dir"]
@@ -730,7 +734,15 @@ def assemble(unit_name, canary=False):
     recs = []
     cur_impl = None
     for f in u.get("fn", []):
-        emit_impl, text, rec = emit_fn(f, udir, props, recs, None)
+        if "from_unit" not in f and fn_id(f) in demote:
+            # the function's spliced text does not compile (lost hint anchor / unsupported construct after an edit):
+            # keep its contract as an assumption so the rest of the unit is still checked; the driver reports it UNDECIDED
+            f = dict(f)
+            f["mode"] = "assume"
+            emit_impl, text, rec = emit_fn(f, udir, props, recs, None)
+            rec.mode = "demoted"
+        else:
+            emit_impl, text, rec = emit_fn(f, udir, props, recs, None)
         if emit_impl != cur_impl:
             if cur_impl:
                 add("}\n")
